@@ -89,7 +89,7 @@ OPS = ["lan_send", "refresh", "lan_auth", "auth"]
 
 
 def run(plan):
-    s = Session(plan)
+    s = Session(plan, max_iterations=6000)
     w = s.world
     dev = s.dev
     res = Result()
